@@ -22,12 +22,18 @@ def expected(y0, y1, step):
         return set(), set()
     a = lo / fs
     b = hi / fs
-    exact = (F(y0 / step) == fy0 / fs) and (F(y1 / step) == fy1 / fs)
+    flo, fhi = (y0, y1) if fy1 > fy0 else (y1, y0)
+    # is the float division of each end exact?  (an end whose quotient is
+    # exact is decided exactly even when the other end's is not)
+    exact_lo = F(flo / step) == a
+    exact_hi = F(fhi / step) == b
     must, maybe = set(), set()
     for k in range(math.floor(a) - 1, math.ceil(b) + 2):
         inside = (a <= k) and (k < b)
-        near = min(abs(a - k), abs(b - k)) <= F(4 * EPS) * max(1, abs(k))
-        if near and not exact:
+        tol = F(4 * EPS) * max(1, abs(k))
+        near_lo = abs(a - k) <= tol and not exact_lo
+        near_hi = abs(b - k) <= tol and not exact_hi
+        if near_lo or near_hi:
             maybe.add(k)
         elif inside:
             must.add(k)
